@@ -409,9 +409,12 @@ def jobs(tier):
                 J.append(("job_day", dict(mode=mode, props={"day_of_week": wd}, rep="week", res=res, ranges=dict(T0, W=(51, 53)))))
         J.append(("job_day", dict(mode=mode, props={"day_of_week": 3, "hour_of_day": 6}, rep="ord", res=104, ranges=dict(T0, DOY=(last - 3, last), h=(4, 7)))))
         for D in ((1, 15, 28, 29, 30, 31) if th else (1, 29, 31)):
+            if D == 31 and mode == "360day":
+                continue            # refused by the constructor: no month of this calendar has a 31st
             for m in ((1, 3), (4, 12)) if D >= 29 else ((12, 12),):
                 J.append(("job_day", dict(mode=mode, props={"day_of_month": D}, rep="cal", ranges=dict(T0, M=m, h=(0, 0)))))
-        J.append(("job_day", dict(mode=mode, props={"day_of_month": 31, "hour_of_day": 6}, rep="cal", ranges=dict(T0, M=(1, 3), D=(28, 31)))))
+        J.append(("job_day", dict(mode=mode, props={"day_of_month": 30 if mode == "360day" else 31, "hour_of_day": 6}, rep="cal",
+                                  ranges=dict(T0, M=(1, 3), D=(28, 31)))))
         for N in ((1, 60, min(365, last)) if not th else ((1, 60, min(365, last)) + ((366,) if last == 366 else ()))):
             J.append(("job_day", dict(mode=mode, props={"day_of_year": N}, rep="ord", lookahead=9 if N == 366 else 2,
                                       ranges=dict(T0, h=(0, 0), DOY=(1, 3) if N == 1 else ((58, 62) if N == 60 else (last - 3, last))))))
